@@ -130,24 +130,46 @@ Definition reward (rden cden bal ts factor scale num den pool rate : N)
       do pool2 <- qsub pool1 com ;                         (* Deposit: Move(&p.Balance, stakeSrc, amount) *)
       Ok (Some (rem, com, sh, pool2)).
 
-(* (b') TransferFromCommon with escrow = true -- state.go:953-1071 (used only by
-   roothash distributeSlashedFunds, apps/roothash/slashing.go:195).
-   Output: None = pool empty; otherwise (escrowed without shares, commission, new shares). *)
+(* (b') TransferFromCommon with escrow = true -- state.go:953-1085 with the repair of commit
+   c3a21ab (used only by roothash distributeSlashedFunds, apps/roothash/slashing.go:195).
+   Output: None = pool empty; otherwise
+   (escrowed without shares, commission deposited, new shares, commission left in the general balance).
+   The common pool decreases by min(pool, amount) (MoveUpTo, :969). *)
 Definition transfer_from_common_escrow (cden bal ts pool amount rate : N)
-  : res (option (N * N * N)) :=
+  : res (option (N * N * N * N)) :=
   let transferred := N.min pool amount in                  (* :969 MoveUpTo *)
   if transferred =? 0 then Ok None                         (* :973-976 *)
   else if ts =? 0 then                                     (* :1012-1015 everything is commission *)
-    do sh <- shares_for_stake bal ts transferred ;
-    Ok (Some (0, transferred, sh))
+    do sh <- shares_for_stake bal ts transferred ;         (* dead pool impossible: no shares *)
+    Ok (Some (0, transferred, sh, 0))
   else
     do cr <- commission cden rate transferred ;            (* :984-995 *)
     let '(com, rem) := cr in
     let bal1 := bal + rem in                               (* :998 *)
-    if com =? 0 then Ok (Some (rem, 0, 0))                 (* :1018 *)
+    if com =? 0 then Ok (Some (rem, 0, 0, 0))              (* :1018 *)
+    else if (bal1 =? 0) && negb (ts =? 0) then             (* :1022 dead pool: slashed to zero, shares outstanding *)
+      Ok (Some (rem, 0, 0, com))                           (* :1023-1031 commission stays in the general balance *)
     else
-      do sh <- shares_for_stake bal1 ts com ;              (* :1026 *)
-      Ok (Some (rem, com, sh)).
+      do sh <- shares_for_stake bal1 ts com ;              (* :1032-1045 Deposit *)
+      Ok (Some (rem, com, sh, 0)).
+
+(* TransferFromCommon(escrow = true) as it was BEFORE commit c3a21ab (state.go:953-1071 of
+   c3a21ab~1): the commission deposit is attempted also on a dead pool. *)
+Definition transfer_from_common_escrow_original (cden bal ts pool amount rate : N)
+  : res (option (N * N * N * N)) :=
+  let transferred := N.min pool amount in
+  if transferred =? 0 then Ok None
+  else if ts =? 0 then
+    do sh <- shares_for_stake bal ts transferred ;
+    Ok (Some (0, transferred, sh, 0))
+  else
+    do cr <- commission cden rate transferred ;
+    let '(com, rem) := cr in
+    let bal1 := bal + rem in
+    if com =? 0 then Ok (Some (rem, 0, 0, 0))
+    else
+      do sh <- shares_for_stake bal1 ts com ;
+      Ok (Some (rem, com, sh, 0)).
 
 (* ------------------------------------------------------------------ *)
 (* (d) slashing -- state.go:768-855.  slashPool moves min(balance, balance*amount/total). *)
